@@ -521,6 +521,10 @@ impl<'a, T> ChordsV2<'a, T> {
             // Remove exactly the presses that formed the chord: one per participating key.
             // A key that was released and pressed again while the chord was still pending has a
             // second press in the queue, which is a new key press and must not vanish with it.
+            // The queue changed; the countdown computed for the consumed presses is stale. If it
+            // were kept, new events that happen to bring the queue back to its previous length
+            // (e.g. the releases of a quickly tapped chord) would be ignored until it runs out.
+            self.ticks_until_next_state_change = 0;
             let mut consumed = accumulated_presses.clone();
             self.queue.retain(|qd| match qd.event {
                 Event::Press(_, j) => match consumed.iter().position(|k| *k == j) {
